@@ -250,8 +250,11 @@ async fn history_case(rep: &mut Report, args: &Args, case_seed: u64) {
     let mut ops: Vec<vpc::Value> = Vec::new();
     let n_ops = 30 + rng.usize_below(60);
     let mut failed_partial = 0u64;
+    let (mut after_failed_partial, mut reopen_pending) = (false, false);
     for step in 0..n_ops {
-        if step > 0 && rng.chance(1, 30) && opens_left() {
+        // reopen: now and then, and (1 in 2) right after the first accepted append that follows a failed partial write
+        if step > 0 && (rng.chance(1, 30) || (reopen_pending && rng.chance(1, 2))) && opens_left() {
+            reopen_pending = false;
             db.shutdown().await;
             drop(db);
             db = match cfg.open(&dir) {
@@ -269,6 +272,12 @@ async fn history_case(rep: &mut Report, args: &Args, case_seed: u64) {
             let pos = 1 + rng.usize_below(t.events.len() - 1);
             t.events[pos].timestamp = u64::MAX - rng.below(1000);
             bad_ts = true;
+            // 1 in 2: the events written before the failing one are large, so that the failing append is often the
+            // one that rolls the segment over
+            if rng.chance(1, 2) {
+                let n = 30_000 + rng.usize_below(12_000);
+                t.events[0].payload = rng.bytes(n);
+            }
         }
         let accept = model.check(&t).is_ok() && !bad_ts;
         let res = db.append_events(to_store_txn(&t).unwrap()).await;
@@ -279,10 +288,15 @@ async fn history_case(rep: &mut Report, args: &Args, case_seed: u64) {
         match (res.is_ok(), accept) {
             (true, true) => {
                 model.apply(&t).unwrap();
+                if after_failed_partial {
+                    after_failed_partial = false;
+                    reopen_pending = true;
+                }
             }
             (false, _) => {
                 if bad_ts && model.check(&t).is_ok() {
                     failed_partial += 1;
+                    after_failed_partial = true;
                 }
                 deny.extend(t.events.iter().map(|e| e.event_id));
             }
@@ -300,6 +314,27 @@ async fn history_case(rep: &mut Report, args: &Args, case_seed: u64) {
         if rep.violations.len() > 8 {
             break;
         }
+    }
+    // final reopen: what recovery makes of the whole history (orphaned events of failed appends must stay invisible)
+    if opens_left() && rep.violations.len() <= 8 {
+        db.shutdown().await;
+        drop(db);
+        db = match cfg.open(&dir) {
+            Ok(d) => d,
+            Err(e) => {
+                rep.violation("C04:reopen-failed", e, json!({"case_seed": case_seed}));
+                return;
+            }
+        };
+        for _ in 0..3 {
+            let mut out = Vec::new();
+            let reads = reader_round(&db, &model, &deny, &mut rng, &mut out).await;
+            rep.count("reads_checked", reads);
+            for (sig, what) in out.into_iter().take(2) {
+                rep.violation(&format!("C04:history:after-final-reopen:{sig}"), what, json!({"case_seed": case_seed, "mode": "history", "store": cfg.to_json(), "ops_tail": ops.iter().rev().take(6).rev().collect::<Vec<_>>() }));
+            }
+        }
+        rep.count("final_reopens", 1);
     }
     rep.count("failed_partial_writes", failed_partial);
     if failed_partial > 0 {
